@@ -164,6 +164,10 @@ def scenario(nodes, root_nonmodrs, fallback, path_sub, decoys, tweak):
             target = list(b.placed[0][0])
         elif tweak != "skip_children":
             opt = "none"
+    if tweak in ("ignore_root", "generated_root"):
+        # the excluded file is the root of the run itself: it is left alone, its modules are not
+        opt = tweak.split("_")[0]
+        target = list(root)
     return {"root": list(root), "opt": opt, "target": target,
             "files": [{"path": list(p), "items": f["items"], "skip": f["skip"]}
                       for p, f in sorted(b.files.items())],
@@ -181,10 +185,10 @@ def universe():
         for rn, fb, ps, dc in itertools.product([False, True], repeat=4):
             for tw in ("none", "ambiguous", "missing", "skipdecl", "innerskip", "cfgif",
                        "emptydir", "skip_children", "ignore", "generated", "skipdecl_deep",
-                       "skipdecl_nested", "cfgif_skip"):
+                       "skipdecl_nested", "cfgif_skip", "ignore_root", "generated_root"):
                 if tw != "none" and (ps or fb) and tw not in ("emptydir",):
                     continue
-                if tw in ("skip_children", "ignore", "generated") and dc:
+                if tw in ("skip_children", "ignore", "generated", "ignore_root", "generated_root") and dc:
                     continue
                 sc = scenario(nodes, rn, fb, ps, dc, tw)
                 key = json.dumps([sc["files"], sc["dirs"], sc["opt"], sc["target"]],
@@ -280,6 +284,7 @@ def run(tier, seed, replay=None):
                   and s["meta"]["tweak"] in ("none", "emptydir")][:140]
         core_s += [s for s in uni if s["meta"]["tweak"] in ("skipdecl_deep", "skipdecl_nested",
                                                              "cfgif_skip")][::6]
+        core_s += [s for s in uni if s["meta"]["tweak"] in ("ignore_root", "generated_root")][::5]
         rest = [s for s in uni if s not in core_s]
         rng.shuffle(rest)
         sel = core_s + rest[:360]
